@@ -79,6 +79,20 @@ def handle : List String → String
       | "restart" => s!"ok {isRestartCall ops}"
       | _ => "bad-op"
     | none => "bad-op"
+  | ["flink", acc, kind, flags, seekable] =>
+    -- flags: five characters 0/1 = hasRead hasWrite isIOBase closed hasSeek; seekable: `-` (no method), `0`, `1`
+    let k? : Option ArgKind := match kind with | "str" => some .str | "path" => some .path | "other" => some .other | _ => none
+    let s? : Option (Option Bool) := match seekable with | "-" => some none | "0" => some (some false) | "1" => some (some true) | _ => none
+    match k?, s?, flags.toList.map (· == '1'), acc with
+    | some k, some sk, [r, w, io, cl, hs], "0" | some k, some sk, [r, w, io, cl, hs], "1" =>
+      let res := link (acc == "1") ⟨k, r, w, io, cl, sk, hs⟩
+      match res with
+      | .opened => "ok opened"
+      | .linked => "ok linked"
+      | .closedFile => "ok ValueError:closed"
+      | .notSeekable => "ok ValueError:stream"
+      | .typeError => "ok TypeError"
+    | _, _, _, _ => "bad-op"
   | _ => "bad-op"
 
 end Files
